@@ -212,6 +212,9 @@ func (s *state) exec(op tr.Line) {
 		}
 	case "iter":
 		m, k, lim := op.Int(0), op.Int(1), op.Int(2)
+		if variant == "map" {
+			lim = -1 // Go's map iteration order is unspecified: an early stop has no defined visit set
+		}
 		w.Op(tr.L("iter", tr.I(m), tr.I(k), tr.I(lim)))
 		var visited []int
 		var deleted []int
